@@ -259,6 +259,8 @@ type World struct {
 	pendingObs []*state.AppExecResult
 	txMeta     map[*transaction.Transaction]*JTx
 	sigMeta    map[*transaction.Transaction]*JTx
+	callOf     map[*transaction.Transaction]string
+	lastCall   string // last invocation of the previous non-empty block (interleaving cells)
 }
 
 // Logf appends to the deterministic event log.
@@ -294,11 +296,18 @@ type WorldOpts struct {
 // how many of a new world's committee members are validators.
 var DrawValidators func(n int) int
 
+// BlockCell, if set, receives the interleaving cells World.AddBlock observes.
+var BlockCell func(space, cell string)
+
 // installWorldDraws lets the run's choice source decide the world dimensions
 // no engine chooses itself: in a quarter of the runs only the first v < n
 // committee members are validators (the committee, not the validator set, is
 // what the contracts' committee and Alphabet witnesses are documented to mean).
 func installWorldDraws(r *Run) {
+	// reach measure for interleavings: which ordered pairs of invocations
+	// (with their outcomes) shared a block, and which followed one another
+	// across a block boundary
+	BlockCell = func(space, cell string) { r.Cell(space, cell) }
 	DrawValidators = func(n int) int {
 		if n < 2 || !Chance(r.T, "fewerValidators", 25) {
 			return n
@@ -365,7 +374,7 @@ func newBareWorld(o WorldOpts) *World {
 	bc, err := core.NewBlockchain(store, cfg, zap.NewNop())
 	must(err)
 	go bc.Run()
-	w := &World{BC: bc, N: n, Privs: privs, Pubs: pubs, Magic: cfg.Magic, C: map[string]*Deployed{}, Opts: o, record: RecordJournal, txMeta: map[*transaction.Transaction]*JTx{}, sigMeta: map[*transaction.Transaction]*JTx{}}
+	w := &World{BC: bc, N: n, Privs: privs, Pubs: pubs, Magic: cfg.Magic, C: map[string]*Deployed{}, Opts: o, record: RecordJournal, txMeta: map[*transaction.Transaction]*JTx{}, sigMeta: map[*transaction.Transaction]*JTx{}, callOf: map[*transaction.Transaction]string{}}
 	w.Validator = Multi("validators", smartcontract.GetDefaultHonestNodeCount(nv), privs[:nv])
 	w.Alphabet = Multi("alphabet", n*2/3+1, privs)
 	w.Committee = Multi("committee", n/2+1, privs)
@@ -396,6 +405,11 @@ func (w *World) rawTx(script []byte, signers []Signer, sysFee, netFee int64) *tr
 func (w *World) rawTxNonce(script []byte, signers []Signer, sysFee, netFee int64, nonce uint32) *transaction.Transaction {
 	tx := transaction.New(script, sysFee)
 	tx.Nonce = nonce
+	if BlockCell != nil {
+		if ci := LookupCall(script); ci != nil {
+			w.callOf[tx] = ci.Method
+		}
+	}
 	if TxHook != nil {
 		w.sigMeta[tx] = &JTx{Script: script, Signers: append([]Signer(nil), signers...)}
 	}
@@ -494,6 +508,17 @@ func (w *World) AddBlock(txs []*transaction.Transaction, dtMillis uint64) []*sta
 		}
 		w.inHook = false
 	}
+	var callNames []string
+	if BlockCell != nil && !w.inHook {
+		for _, tx := range txs {
+			name := "?"
+			if m, ok := w.callOf[tx]; ok {
+				name = m
+				delete(w.callOf, tx)
+			}
+			callNames = append(callNames, name)
+		}
+	}
 	for _, tx := range txs {
 		delete(w.sigMeta, tx)
 	}
@@ -531,6 +556,26 @@ func (w *World) AddBlock(txs []*transaction.Transaction, dtMillis uint64) []*sta
 			harnessf("no application log for tx %d of block %d: %v", i, b.Index, err)
 		}
 		res[i] = &aers[0]
+	}
+	if callNames != nil {
+		tag := func(i int) string {
+			if res[i].VMState == vmstate.Halt {
+				return callNames[i] + ":H"
+			}
+			return callNames[i] + ":F"
+		}
+		for i := 1; i < len(callNames); i++ {
+			if callNames[i-1] != "?" && callNames[i] != "?" {
+				BlockCell("interleaving.same_block_ordered_pair", tag(i-1)+">"+tag(i))
+			}
+		}
+		if n := len(callNames); n > 0 && callNames[0] != "?" && w.lastCall != "" {
+			BlockCell("interleaving.across_block_boundary", w.lastCall+"|"+tag(0))
+		}
+		w.lastCall = ""
+		if n := len(callNames); n > 0 && callNames[n-1] != "?" {
+			w.lastCall = tag(n - 1)
+		}
 	}
 	if w.record {
 		jb := &JBlock{Dt: dtMillis}
